@@ -252,12 +252,24 @@ pub static mut NPOPS: usize = 0;
 /// One-shot abstraction of BitBoard::pop (the only thing BitBoardIter::next calls): on a non-empty set
 /// return an ARBITRARY member and leave the set empty, so `for x in set { body }` executes `body` exactly
 /// once for an arbitrary member (or not at all). The real iterator is verified separately (C18.iter.next).
+/// members the harness pre-selected for the k-th loop (64 = no pre-selection). A pre-selected member is itself a
+/// nondeterministic square, so the loop body still runs for an arbitrary member; pre-selection lets the harness
+/// state assumptions about that member (e.g. its cached pin flag equals the spec) BEFORE the call.
+pub static mut PRESELECT: [u8; 4] = [64; 4];
+pub fn preselect(k: usize, sq: u8) {
+    unsafe { PRESELECT[k] = sq };
+}
 pub fn pop_one_shot(bb: &mut BitBoard) -> Option<Pos> {
     if bb.none() {
         return None;
     }
     let p: Pos = kani::any();
     kani::assume(bb.contains(p));
+    unsafe {
+        if NPOPS < 4 && PRESELECT[NPOPS] < 64 {
+            kani::assume(p as u8 == PRESELECT[NPOPS]);
+        }
+    }
     unsafe {
         if NPOPS < 4 {
             POPS[NPOPS] = p as u8;
